@@ -316,14 +316,14 @@ def main(argv=None):
                 own.append((s, v))
             else:
                 others[(v["prop"], v["oracle"])] = others.get((v["prop"], v["oracle"]), 0) + 1
-    if a.show_others:
+    if True:   # one example of every other-property observation is always logged (never a verdict)
         seen = set()
         for s in summaries:
             for v in s.get("violations", []):
                 key = (v["prop"], v["oracle"])
                 if v["prop"] != prop and key not in seen:
                     seen.add(key)
-                    print("OTHER", key, "run", s["index"], "op", v["op"], v["detail"])
+                    print("OTHER", key, "run", s["index"], "seed", s["run_seed"], "op", v["op"], v["detail"])
                     if s.get("ops"):
                         from .checks import abbreviate
                         print("      op:", abbreviate(s["ops"][v["op"]:v["op"] + 1]))
